@@ -5,3 +5,4 @@ use super::*;
 pub(crate) mod common;
 mod c09;
 mod c14;
+mod c10;
